@@ -145,3 +145,14 @@ impl Borrow<BKey> for Tok {
 impl Default for Tok {
     fn default() -> Tok { fault_point(); Tok::tagged(0, 0xDF) }
 }
+
+/// A token WITHOUT drop glue whose `Clone` is observable (C15: "exactly one clone per element" must hold for such
+/// types too -- `needs_drop::<T>() == false` does not make a type plain data).
+pub static mut CCLONES: usize = 0;
+pub struct CTok { pub key: u8, pub gen: u8 }
+impl CTok { pub fn new(key: u8) -> CTok { CTok { key, gen: 0 } } }
+impl Clone for CTok {
+    fn clone(&self) -> CTok { unsafe { CCLONES += 1; } CTok { key: self.key, gen: self.gen.wrapping_add(1) } }
+}
+impl PartialEq for CTok { fn eq(&self, o: &CTok) -> bool { self.key == o.key } }
+impl Eq for CTok {}
